@@ -52,8 +52,16 @@ class Adapter:
         # "init" is documented as an iterable of integers: a list, a tuple, or a one-shot iterator / generator
         shape = (rows + nb + len(words) + sum(words)) % 4
         init = [words, tuple(words), iter(words), (w for w in words)][shape]
+        via_setter = (rows + len(words) + sum(words[:2])) % 3 == 0
         dut = WishboneSRAM(size=rows * nb // gb, data_width=8 * nb, granularity=8 * gb,
-                           writable=bool(cfg["writable"]), init=init)
+                           writable=bool(cfg["writable"]), init=() if via_setter else init)
+        if via_setter:
+            dut.init = init            # the documented way to load an image after construction
+        # what the component reports about itself
+        told = (dut.size, dut.writable, [int(v) for v in dut.init][:len(words)])
+        if told != (rows * nb // gb, bool(cfg["writable"]), words):
+            raise common.Violation("sram-attributes", f"WishboneSRAM reports size/writable/init {told}, built with "
+                                   f"{(rows * nb // gb, bool(cfg['writable']), words)}")
         b = dut.wb_bus
         ins = {s: getattr(b, s) for s in ("cyc", "stb", "we", "adr", "sel", "dat_w")}
         outs = {"ack": b.ack, "dat_r": b.dat_r}
